@@ -10,8 +10,12 @@
     enc <ver> <lock> <segwit:0|1> <nin> {<hash> <idx> <script> <seq>}* <nout> {<value> <script>}*
         [<nstacks> {<nitems> {<item>}*}*]   -> ok <encodeTx> <encodeTxNoWit>
     block <raw>   -> <err:none|tooShort|badCount|txFailed> <txCount> <weight> <ntx> {<hash>:<wtxid>:<size>:<nowitsize>}*
+    merkle <raw>  -> <MerkleRootMatch 0|1> <GetMerkle root|none> <mutated 0|1>     (after NewBlock + BuildTxList)
+    alloc <sizeof Tx> <sizeof TxIn> <sizeof TxOut> <raw> -> <bytes requested from the allocator by NewTx(raw)>
 -/
 import GocoinV.Model.Wire
+import GocoinV.Model.WireAlloc
+import GocoinV.Model.WireBlock
 import GocoinV.Base.Sha256
 import GocoinV.Base.Proto
 open GocoinV GocoinV.Wire
@@ -95,6 +99,12 @@ def blockReply (b : Bytes) : String :=
   let txs := r.txs.map fun t => s!"{Hex.encode t.ids.hash}:{Hex.encode t.ids.wtxid}:{t.ids.size}:{t.ids.noWitSize}"
   s!"{errStr r.err} {r.txCount} {r.weight} {r.txs.length} " ++ " ".intercalate txs
 
+def merkleReply (b : Bytes) : String :=
+  let m := if merkleRootMatch sha256d b then "1" else "0"
+  match getMerkle sha256d (decodeBlock sha256d b) with
+  | none => s!"{m} none 0"
+  | some (root, mutated) => s!"{m} {Hex.encode root} {if mutated then "1" else "0"}"
+
 def step (_ : Unit) (toks : List String) : Unit × String :=
   let bad := ((), "bad-op")
   match toks with
@@ -115,6 +125,12 @@ def step (_ : Unit) (toks : List String) : Unit × String :=
   | ["block", b] => match Hex.decode b with
     | some b => ((), blockReply b)
     | none => bad
+  | ["merkle", b] => match Hex.decode b with
+    | some b => ((), merkleReply b)
+    | none => bad
+  | ["alloc", kt, ki, ko, b] => match kt.toNat?, ki.toNat?, ko.toNat?, Hex.decode b with
+    | some kt, some ki, some ko, some b => ((), toString (allocTx { tx := kt, txIn := ki, txOut := ko } b))
+    | _, _, _, _ => bad
   | _ => bad
 
 def main : IO Unit := Proto.serve () step
